@@ -214,10 +214,31 @@ CLAIMED = {
    note='Trusted: Lean kernel, hand model (tied on explored sequences), numbers not modelled (provenance tokens), OpenMP scheduling / races '
         'outside the model (thread clauses by execution + C11 chunking theorem), ARPACK start vectors random (1e-8). Nine known findings.',
    technique='Lean 4 proof (invariant over op sequences) over hand life-cycle model + call-sequence footprint correspondence', ref='4/C20'),
+ 'C16': dict(
+   text='The Lean model of every entry statement of fk0, fk0_cyl, fk0edges, fkG0, fkG0_cyl of all 17 complete-shell linear modules (3900 entries; '
+        'closed-form trigonometric integrals over a meridian section) is REGENERATED from the .pyx source on every run: local names are resolved '
+        'through their definitions to a fixed vocabulary of canonical trigonometric atoms, laminate entries, geometry, loads and indices. '
+        'Regenerated, kernel-checked theorems: (T1) every geometric-stiffness entry of every model is linear in (Fc, P, T), hence the combined-load '
+        'split adds up; (T3) at every entry position where it is true (3 250 of 3 515) the cone kernel at sin(alpha)=0, cos(alpha)=1 over the '
+        'section [0, L] equals the dedicated cylinder kernel (all CLPT Donnell/Sanders and FSDT Donnell bc1-4 models completely); (T2) the '
+        'isotropic short-cut kernels equal the general kernels on the isotropic laminate (positions needing trigonometric identities are proved '
+        'for ALL half-angle parameters, no sin^2+cos^2 hypothesis); real-analysis lemmas justify the atom values at the section ends and the '
+        'half-angle parametrisation; make_symmetric gives symmetric k0/kG0; sections telescope. Model arm: every position is also evaluated in '
+        'exact rational arithmetic (a false position is reported with its witness); whole interpreted matrices cone(alpha=0, s sections) vs '
+        'cylinder catch loop-nest defects. V: interpreted IR vs the 16 running binaries (bit-exact). Implementation arm: symmetry, PSD, '
+        'k0 = Hessian of the strain energy of the package\'s own strain field + edge restraints (classical Donnell bc1/3/4), compiled cone '
+        'kernels at alpha=0 vs cylinder kernels, isotropic vs general, linearity and split of kG0 through the public API. Four genuine kernel '
+        'defects recorded (stale column in the clpt_donnell_bc2 cone loop, stale index in the isotropic k0_01 block, fsdt_donnell_bcn and '
+        'fsdt_sanders_bcn cone vs cylinder kernels).',
+   note='PARTIAL: energy consistency and positive semi-definiteness are decided on the implementation only (not theorems); equality of cone and '
+        'cylinder kernels is proved for the single section [0, L] (telescoping of s sections is proved as a list lemma, the per-entry primitive form '
+        'is evaluated numerically on whole matrices); 67 isotropic positions are covered by exact rational evaluation only '
+        '(tools/translate/conecyl_unproved.json). Trusted: Lean kernel, Mathlib, translator (validated by V each run), CCSpec.lean and its Python mirrors, '
+        'Cython build not verified, rounding not modelled.',
+   technique='Lean 4 proof over model regenerated from source (translator) + exact rational evaluation + translation validation + energy oracle', ref='4/C16'),
 }
 
 NA_REASON = {
- 'C16': 'glue-level predicates are evaluated inside the C18 check (evidence key c16_glue); a proof-level check of its own (translated trig kernels) is not built yet - see DESIGN.md section 4/C16',
  'C17': 'glue-level predicates are evaluated inside the C18 check (evidence key c17_glue); a proof-level check of its own is not built yet - see DESIGN.md section 4/C17',
 }
 
